@@ -75,6 +75,80 @@ def _wp_set(self, v):
 
 POOL_OPS = ('acquire_all', 'release_all', 'next_idle', 'release', 'idle', 'call')
 COMPOSITE_OPS = ('run', 'call_and_wait')
+
+
+# ------------------------------------------------------------------ round 6: composite operations step by step (fam 'schedc')
+# `WorkerPool.run` / `call_and_wait` under the scheduler over the MANUAL transport.  Their own yield points:
+#   'clock'  every `time.time()` of courier_worker.py (the clock is shared with the environment's `tick`),
+#   'sleep'  every `time.sleep(..)` of courier_worker.py and courier_utils.py (a pure yield: the virtual clock moves only by `tick`),
+#   'fwait'  `futures.wait([state])` in CourierClient.submit (blocked until the call has been answered),
+#   'wdone'  each `task.done()` poll of the busy loop of `courier_worker.wait` (blocked until that call is done: the
+#            loop reads nothing else and has no timeout, so blocking is its stutter-free equivalent).
+# All of it is installed from here for the duration of one run (no edit of harness/sched/shim.py or harness/fakecourier).
+
+class YClock:
+  """Stand-in for the `time` module of one repo module."""
+
+  def __init__(self, base, yield_time):
+    self._base, self._yield_time = base, yield_time
+
+  def time(self):
+    s = _CUR.get('sched')
+    if self._yield_time and s is not None and s.current() is not None:
+      return s.op('clock', lambda: True, lambda alt: self._base.time())
+    return self._base.time()
+
+  def sleep(self, dt=0.0):
+    s = _CUR.get('sched')
+    if s is not None and s.current() is not None:
+      s.op('sleep', lambda: True, lambda alt: None)
+
+  def monotonic(self):
+    return self._base.time()
+
+  def __getattr__(self, name):
+    return getattr(self._base, name)
+
+
+def futures_facade():
+  import concurrent.futures as cf
+  m = _types.SimpleNamespace(**{k: getattr(cf, k) for k in dir(cf) if not k.startswith('__')})
+
+  def wait(fs, timeout=None, return_when=cf.ALL_COMPLETED):
+    fs = list(fs)
+    s = _CUR.get('sched')
+    if s is not None and s.current() is not None:
+      s.op('fwait', lambda: all(cf.Future.done(f) for f in fs), lambda alt: None)
+    return cf.wait(fs, timeout=timeout, return_when=return_when)
+  m.wait = wait
+  return m
+
+
+def make_yfuture(wait_code):
+  import concurrent.futures as cf
+  import sys as _sys
+
+  class YFuture(cf.Future):
+    def done(self):
+      s = _CUR.get('sched')
+      if s is not None and s.current() is not None and _sys._getframe(1).f_code is wait_code:  # pylint: disable=protected-access
+        return s.op('wdone', lambda: cf.Future.done(self), lambda alt: True)
+      return cf.Future.done(self)
+  return YFuture
+
+
+def canon_outcome(res):
+  """Result string of a composite operation -> the model's outcome name."""
+  if res == 'ok':
+    return 'ok'
+  r = str(res)
+  if r.startswith('err:ValueError:Failed to connect'):
+    return 'notStarted'
+  if r.startswith('err:ValueError:No worker is avai'):
+    return 'noWorker'
+  if r.startswith('err:RuntimeError:Failed to connect'):
+    return 'disconnected'
+  return 'raised'
 ENV_OPS = ('die', 'revive', 'send', 'deliver', 'tick')
 
 
@@ -111,12 +185,22 @@ def run_real(case, max_steps=4000):
   logging.disable(logging.CRITICAL)
   # composite operations (`run`, `call_and_wait`: family 'schedrun', oracle only) need their RPCs answered: the
   # transport then runs every handler inline and the repo's spin loops advance the virtual clock by `spin` seconds
-  composite = any(o['op'] in COMPOSITE_OPS for th in case['threads'] for o in th['ops'])
+  stepwise = case.get('fam') == 'schedc'       # composite operations step by step over the manual transport
+  composite = (not stepwise) and any(o['op'] in COMPOSITE_OPS for th in case['threads'] for o in th['ops'])
   clock = fakecourier.VirtualClock(start=float(case['now']), spin_tick=float(case.get('spin', 60)) if composite else 0.0)
   fakecourier.reset(mode='inline' if composite else 'manual', time_fn=clock.time)
   from ml_metrics._src.chainables import courier_server, courier_worker, lazy_fns
   from ml_metrics._src.utils import courier_utils
+  from harness.fakecourier import _core as fc_core
   fakecourier.patch_time(clock)
+  saved_futures, saved_cf = courier_utils.futures, fc_core.cf
+  if stepwise:
+    import concurrent.futures as cf
+    courier_worker.time = YClock(clock, True)
+    courier_utils.time = YClock(clock, False)
+    courier_utils.futures = futures_facade()
+    fc_core.cf = _types.SimpleNamespace(Future=make_yfuture(courier_worker.wait.__code__),
+                                        ThreadPoolExecutor=cf.ThreadPoolExecutor, InvalidStateError=cf.InvalidStateError)
   n, pw = case['nworkers'], case['pw']
   uid = f"x{id(case) & 0xffffff}_{random.getrandbits(40)}_"
   steps = []          # per executed step: [tid, label, op index of the thread]
@@ -154,7 +238,9 @@ def run_real(case, max_steps=4000):
       srv.Bind('heartbeat', lambda *args, _ns=ns, **kw: courier_server.CourierServer._heartbeat(_ns, *args, **kw))  # pylint: disable=protected-access
       srv.Bind('maybe_make', lambda lazy=None, *args, **kw: lazy_fns.pickler.dumps(lazy_fns.maybe_make(lazy)))
       srv.Start()
-    workers = [courier_worker.Worker(a, heartbeat_threshold_secs=case['thr']) for a in addrs]
+    mps = case.get('mp') or [1] * n
+    workers = [courier_worker.Worker(a, heartbeat_threshold_secs=case['thr'], max_parallelism=mps[i])
+               for i, a in enumerate(addrs)]
     for i, w in enumerate(workers):
       w.__dict__['_vname'] = str(i)
       w._lock.name = f'L{i}'  # pylint: disable=protected-access
@@ -256,8 +342,8 @@ def run_real(case, max_steps=4000):
       outcome = sched.run()
     except shim.SchedulerError as e:
       outcome, err = 'schedule_rejected', str(e)
-    if outcome == 'stopped':
-      outcome = 'cut'
+    if outcome == 'stopped' or (stepwise and outcome == 'max_steps'):
+      outcome = 'cut'        # (stepwise: a spin loop of a composite operation whose exit the environment never enables)
     _CUR['sched'] = None
     final = snapshot()
     snaps.append(final)
@@ -277,6 +363,7 @@ def run_real(case, max_steps=4000):
     _CUR['sched'] = None
     courier_utils.threading = saved_threading
     courier_utils._worker_registry = saved_reg  # pylint: disable=protected-access
+    courier_utils.futures, fc_core.cf = saved_futures, saved_cf
     if not had_prop:
       try:
         del courier_worker.Worker._worker_pool  # pylint: disable=protected-access
@@ -290,7 +377,7 @@ def run_real(case, max_steps=4000):
 
 def model_request(case, choices):
   return dict(model='owner', mode='xsched', nworkers=case['nworkers'], pw=case['pw'], thr=case['thr'], now=case['now'],
-              reg0=case['reg0'], threads=[dict(kind=t['kind'], ops=[model_op(o) for o in t['ops']]) for t in case['threads']],
+              reg0=case['reg0'], mp=case.get('mp') or [1] * case['nworkers'], threads=[dict(kind=t['kind'], ops=[model_op(o) for o in t['ops']]) for t in case['threads']],
               sched=list(choices))
 
 
@@ -302,7 +389,7 @@ def model_op(o):
 
 def model_obs(case, r):
   nt = len(case['threads'])
-  return dict(accepted=r['accepted'], steps=[[t, l] for t, l, _ in r['trace']], pps=[pp for _, _, pp in r['trace']],
+  return dict(accepted=r['accepted'], prophecy_ok=r.get('prophecy_ok', True), steps=[[t, l] for t, l, _ in r['trace']], pps=[pp for _, _, pp in r['trace']],
               enabled=r['enabled_trace'], enabled_final=r['enabled'], results=r['results'], finished=r['finished'],
               locked=r['locked'], locked_by=r['locked_by'], available=r['available'], acquired=r['acquired'],
               get=r['get'], reg_trace=r['reg_trace'], reg=r['reg'],
@@ -326,6 +413,8 @@ def compare(obs, m):
   if not m['accepted']:
     k = len(m['steps'])
     return (f"model rejects choice #{k} (real step {obs['steps'][k] if k < len(obs['steps']) else None}) taken by the real code")
+  if not m['prophecy_ok']:
+    return 'driver: the schedule replayed on the pure xstep? against the discovered script of pieces differs from the first pass'
   real = [[t, l] for t, l, _ in obs['steps']]
   if real != m['steps']:
     for k, (a, b) in enumerate(zip(real, m['steps'])):
@@ -344,7 +433,7 @@ def compare(obs, m):
     for t, th in enumerate(case['threads']):
       if th['kind'] != 'pool':
         continue
-      want = [v for o, v in zip(th['ops'], obs['results'][t])]
+      want = [(canon_outcome(v) if o['op'] in COMPOSITE_OPS else v) for o, v in zip(th['ops'], obs['results'][t])]
       got = m['results'][t]
       got = [None if o['op'] in ('release_all', 'release', 'call') else g for o, g in zip(th['ops'], got)]
       if want != got:
